@@ -323,6 +323,9 @@ def finish(prop, tier, seed, level, coverage, assumptions, t0, violations, repla
     """violations: list of dicts {property, what, instance, detail}; only those of `prop` count."""
     known = load_known()
     mine = [v for v in violations if v.get("property") == prop]
+    total = (coverage.get("harness_counters") or {}).get("violations_" + prop, 0)
+    if total and not mine:
+        raise ToolError("harness counted %d violations of %s but handed none over" % (total, prop))
     new, kf = [], {}
     for v in mine:
         k = match_known(prop, v, known)
